@@ -234,44 +234,48 @@ def run(ctx):
                             return lp, res
         return None, None
     lp, ch = round_chain(md5)
-    ctx.require(ch is not None, 'MD5 round chain not found')
-    ctx.check([c[0] for c in ch] == [16, 32, 48, None], R, 'md5|round-bounds', lp, 'rounds of 16', 'MD5 round boundaries are %s' % [c[0] for c in ch])
-    for i, (spec, nm) in enumerate(((F_, 'F'), (G_, 'G'), (H_, 'H'), (I_, 'I'))):
-        fa = [x for x in walk(ch[i][1]) if x.get('kind') == 'BinaryOperator' and x.get('opcode') == '=' and canon(x['inner'][0]) == 'f']
-        tt = truth_table(I, fa[0]['inner'][1], {'b', 'c', 'd'}) if fa else None
-        ctx.check(tt is not None and tt[1] == tt_of(spec, 3), R, 'md5|%s' % nm, fa[0] if fa else lp, 'round function %s by truth table' % nm, 'MD5 round function %s has truth table %s, expected %s' % (nm, tt[1] if tt else None, tt_of(spec, 3)))
-    # message index schedule
-    gbad = []
-    for x in range(64):
-        rnd = x // 16
-        ga = [y for y in walk(ch[rnd][1]) if y.get('kind') == 'BinaryOperator' and y.get('opcode') == '=' and canon(y['inner'][0]) == 'g']
-        I.ov = {'x': x}
-        v = bv_const(I.eval(ga[0]['inner'][1], {})) if ga else None
-        want_g = [x, (5 * x + 1) % 16, (3 * x + 5) % 16, (7 * x) % 16][rnd]
-        if v is None or (v & 0xFFFFFFFF) != want_g:
-            gbad.append((x, v))
-    ctx.check(not gbad, R, 'md5|message-index', lp, 'g = x, 5x+1, 3x+5, 7x (mod 16)', 'MD5 message index differs: %s' % gbad[:4])
-    # rotation: b + rotl(b_addend, shifts[x])
-    rot = [x for x in walk(loop_body(lp)) if x.get('kind') == 'BinaryOperator' and x.get('opcode') == '|' and 'shifts[x]' in canon(x)]
-    okr = len(rot) == 1
-    if okr:
-        for s_ in (4, 7, 12, 17, 22, 23):
-            I.ov = {'shifts[x]': s_}
-            saved_ov = dict(I.ov)
-            r = rot_amount_with(I, rot[0], 'b_addend', saved_ov)
-            okr = okr and r == s_
-    ctx.check(okr, R, 'md5|rotate', rot[0] if rot else lp, 'left rotation by shifts[x]', 'MD5 rotation is not rotl(b_addend, shifts[x])')
-    taps = [canon(x) for x in walk(loop_body(lp)) if x.get('kind') == 'BinaryOperator' and x.get('opcode') == '=' and canon(x['inner'][0]) in ('a', 'b', 'c', 'd')]
+    if ch is None:
+        ctx.undecided(R, 'md5|round', md5, 'the MD5 step is not written as an `if (x < 16) ... else if (x < 32) ...` chain assigning f and g: round functions, message schedule and rotation are not decided by this rule')
+    else:
+        ctx.check([c[0] for c in ch] == [16, 32, 48, None], R, 'md5|round-bounds', lp, 'rounds of 16', 'MD5 round boundaries are %s' % [c[0] for c in ch])
+        for i, (spec, nm) in enumerate(((F_, 'F'), (G_, 'G'), (H_, 'H'), (I_, 'I'))):
+            fa = [x for x in walk(ch[i][1]) if x.get('kind') == 'BinaryOperator' and x.get('opcode') == '=' and canon(x['inner'][0]) == 'f']
+            tt = truth_table(I, fa[0]['inner'][1], {'b', 'c', 'd'}) if fa else None
+            ctx.check(tt is not None and tt[1] == tt_of(spec, 3), R, 'md5|%s' % nm, fa[0] if fa else lp, 'round function %s by truth table' % nm, 'MD5 round function %s has truth table %s, expected %s' % (nm, tt[1] if tt else None, tt_of(spec, 3)))
+        # message index schedule
+        gbad = []
+        for x in range(64):
+            rnd = x // 16
+            ga = [y for y in walk(ch[rnd][1]) if y.get('kind') == 'BinaryOperator' and y.get('opcode') == '=' and canon(y['inner'][0]) == 'g']
+            I.ov = {'x': x}
+            v = bv_const(I.eval(ga[0]['inner'][1], {})) if ga else None
+            want_g = [x, (5 * x + 1) % 16, (3 * x + 5) % 16, (7 * x) % 16][rnd]
+            if v is None or (v & 0xFFFFFFFF) != want_g:
+                gbad.append((x, v))
+        ctx.check(not gbad, R, 'md5|message-index', lp, 'g = x, 5x+1, 3x+5, 7x (mod 16)', 'MD5 message index differs: %s' % gbad[:4])
+        # rotation: b + rotl(b_addend, shifts[x])
+        rot = [x for x in walk(loop_body(lp)) if x.get('kind') == 'BinaryOperator' and x.get('opcode') == '|' and 'shifts[x]' in canon(x)]
+        okr = len(rot) == 1
+        if okr:
+            for s_ in (4, 7, 12, 17, 22, 23):
+                I.ov = {'shifts[x]': s_}
+                saved_ov = dict(I.ov)
+                r = rot_amount_with(I, rot[0], 'b_addend', saved_ov)
+                okr = okr and r == s_
+        ctx.check(okr, R, 'md5|rotate', rot[0] if rot else lp, 'left rotation by shifts[x]', 'MD5 rotation is not rotl(b_addend, shifts[x])')
+        taps = [canon(x) for x in walk(loop_body(lp)) if x.get('kind') == 'BinaryOperator' and x.get('opcode') == '=' and canon(x['inner'][0]) in ('a', 'b', 'c', 'd')]
     # SHA-1
     lp1, ch1 = round_chain(sha1)
-    ctx.require(ch1 is not None, 'SHA-1 round chain not found')
-    ctx.check([c[0] for c in ch1] == [20, 40, 60, None], R, 'sha1|round-bounds', lp1, 'rounds of 20', 'SHA-1 round boundaries are %s' % [c[0] for c in ch1])
-    for i, (spec, nm) in enumerate(((F_, 'Ch'), (H_, 'Parity'), (MAJ, 'Maj'), (H_, 'Parity2'))):
-        fa = [x for x in walk(ch1[i][1]) if x.get('kind') == 'BinaryOperator' and x.get('opcode') == '=' and canon(x['inner'][0]) == 'f']
-        tt = truth_table(I, fa[0]['inner'][1], {'b', 'c', 'd'}) if fa else None
-        ctx.check(tt is not None and tt[1] == tt_of(spec, 3), R, 'sha1|%s' % nm, fa[0] if fa else lp1, 'round function %s by truth table' % nm, 'SHA-1 round function %s has truth table %s' % (nm, tt[1] if tt else None))
-        ka = [int_value(x['inner'][1]) & 0xFFFFFFFF for x in walk(ch1[i][1]) if x.get('kind') == 'BinaryOperator' and x.get('opcode') == '=' and canon(x['inner'][0]) == 'k']
-        ctx.check(ka == [[0x5A827999, 0x6ED9EBA1, 0x8F1BBCDC, 0xCA62C1D6][i]], R, 'sha1|k-round-%d' % i, ch1[i][1], 'K for round %d' % i, 'SHA-1 round %d uses K=%s' % (i, [hex(k_) for k_ in ka]))
+    if ch1 is None:
+        ctx.undecided(R, 'sha1|round', sha1, 'the SHA-1 step is not written as an `if (x < 20) ...` chain assigning f and k: round functions and constants are not decided by this rule')
+    else:
+        ctx.check([c[0] for c in ch1] == [20, 40, 60, None], R, 'sha1|round-bounds', lp1, 'rounds of 20', 'SHA-1 round boundaries are %s' % [c[0] for c in ch1])
+        for i, (spec, nm) in enumerate(((F_, 'Ch'), (H_, 'Parity'), (MAJ, 'Maj'), (H_, 'Parity2'))):
+            fa = [x for x in walk(ch1[i][1]) if x.get('kind') == 'BinaryOperator' and x.get('opcode') == '=' and canon(x['inner'][0]) == 'f']
+            tt = truth_table(I, fa[0]['inner'][1], {'b', 'c', 'd'}) if fa else None
+            ctx.check(tt is not None and tt[1] == tt_of(spec, 3), R, 'sha1|%s' % nm, fa[0] if fa else lp1, 'round function %s by truth table' % nm, 'SHA-1 round function %s has truth table %s' % (nm, tt[1] if tt else None))
+            ka = [int_value(x['inner'][1]) & 0xFFFFFFFF for x in walk(ch1[i][1]) if x.get('kind') == 'BinaryOperator' and x.get('opcode') == '=' and canon(x['inner'][0]) == 'k']
+            ctx.check(ka == [[0x5A827999, 0x6ED9EBA1, 0x8F1BBCDC, 0xCA62C1D6][i]], R, 'sha1|k-round-%d' % i, ch1[i][1], 'K for round %d' % i, 'SHA-1 round %d uses K=%s' % (i, [hex(k_) for k_ in ka]))
     rots = {}
     for x in walk(body_of(sha1)):
         if x.get('kind') == 'BinaryOperator' and x.get('opcode') == '|':
